@@ -2,7 +2,7 @@
 (* Judge for C11: COSE_Sign verification is positional and all-or-nothing;      *)
 (* signing fills every slot or reports an error; no or empty signatures can be  *)
 (* neither encoded nor decoded.                                                 *)
-EXTENDS CoseSystem, Json
+EXTENDS CoseSystem, Json, TraceKit
 Tr == ndJsonDeserialize("tr.ndjson")
 VARIABLE l
 
@@ -48,9 +48,9 @@ Fails(e) ==
   CASE e.flow = "baddecode" -> IF e.obs[1].res = "ok" THEN {"decoded-message-with-no-or-empty-signature"} ELSE {}
     [] e.flow = "verify" -> SignFails(e) \cup (IF e.n = 0 THEN (IF e.obs[Len(e.obs)].res = "ok" THEN {"verifies-without-signatures"} ELSE {}) ELSE VerifyFails(e))
 
-TInit == l = 1
+TInit == l = 1 /\ KitInit
 TNext == /\ l <= Len(Tr) /\ l' = l + 1
-         /\ LET f == Fails(Tr[l]) IN f = {} \/ PrintT(<<"REJECT", l, f>>)
+         /\ Note(l, Fails(Tr[l]))
 TSpec == TInit /\ [][TNext]_l
-Accepted == TLCGet("stats").diameter - 1 = Len(Tr)
+Accepted == KitDone(Len(Tr))
 =============================================================================
